@@ -9,7 +9,12 @@ Two generators: (1) a depth-bounded COMPLETE enumeration of event sequences (hos
 writes of IMR and ISR / nothing) at the first D boundaries of a spin loop, crossed with small timer periods,
 initial masks and two handlers; (2) seeded random scenarios over program skeletons with HALT / OFF / WAIT,
 handler bodies (acknowledging, re-enabling, IMR-changing), all mask/status values, timer periods and event
-schedules over 60 boundaries.
+schedules over 60 boundaries; (3) seeded contention scenarios (several sources pending at once under a busy main loop).
+
+Host-side configuration is a generated dimension of its own (configure / variants): the Python model is run on the
+normal or on the `fast_mode` execution path of PCE500Emulator.step; the Rust model is run single-stepped and, for
+part of the scenarios, additionally with the host calling CoreRuntime::step(n) with n > 1 (host events between calls);
+the batched run is judged by the same monitor on its own instruction-by-instruction trace (see machine.rs run_parts).
 """
 
 from __future__ import annotations
@@ -36,7 +41,12 @@ RULE = ("machine scenario = (main-loop slots, handler slots, initial IMR/ISR/F, 
         "{0..7,50} (STI a multiple of MTI in 1/3 of the timed scenarios), events (key down/up/inject, ON down/up) over 60 "
         "boundaries, IMEM context of the interrupted program (BP/PX/PY zero or non-zero, patterned user RAM, optional "
         "MV (BP|PX|PY),n slot in main loop or handler), keyboard-interrupt enable on/off; enumerated scenarios take BP "
-        "from {00,10,A5,FF} by a hash of their index. Non-trivial = at least one delivery, "
+        "from {00,10,A5,FF} by a hash of their index; contention part: seeded busy-loop scenarios (no HALT/OFF) with "
+        "coinciding timer expiries (STI = k x MTI, MTI in 4..12), bursts of key + ON events at the same/adjacent "
+        "boundaries, a source masked while another is served and unmasked by the program later, master enable "
+        "switched off/on inside the loop, firmware-raised status bits; host configuration (own stream, co-varied): "
+        "Python fast_mode on for 1/3 of all scenarios, Rust additionally run with batched CoreRuntime::step(n), n in "
+        "{2,3,7,50,1000} cut at host events, for 1/4 of the enumerated/random and all contention scenarios. Non-trivial = at least one delivery, "
         "or a pending-but-masked status for >= 2 consecutive boundaries, or a HALT/OFF wake-up; distinct = hash of "
         "(model, scenario).")
 
@@ -47,6 +57,7 @@ IMR_VALUES = tuple(m | b for m in (0x00, 0x80) for b in range(16))
 PERIODS = (0, 0, 1, 2, 3, 4, 5, 6, 7, 50)
 BASES = (0x01, 0x05, 0x10, 0x80, 0xA5, 0xFF)     # non-zero IMEM base pointer / index register values
 ENUM_BP = (0x00, 0x10, 0xA5, 0xFF)               # enumerated scenarios: BP is a hash of the index (not crossed)
+BATCHES = (2, 3, 7, 7, 50, 50, 1000, 1000)       # n of CoreRuntime::step(n) in batched Rust runs (cut at host events)
 
 ASSUMPTIONS = [
     "delivery position inside a step is model-specific and documented by both step() implementations: Python "
@@ -81,6 +92,15 @@ ASSUMPTIONS = [
     "event may raise ISR.KEYI (Rust unit test 'KEYI should not be asserted when kb_irq_enabled is false', comment in "
     "write_fifo_to_memory, the Python gates in _tick_timers/_scan_keyboard_per_instruction); a poked or firmware-"
     "written KEYI bit then carries no HALT-wake obligation (lib.rs documents ignoring it, Python wakes: assert less)",
+    "host configuration is not part of the property: PCE500Emulator.fast_mode (public attribute, 'minimal execution "
+    "path', switched on by run_pce500.py/cli.py) and the n of CoreRuntime::step(n) must not matter; each configured "
+    "run is judged on its own by the same monitor (no comparison between configurations)",
+    "the state after the j-th instruction of a CoreRuntime::step(n) call is observed as the state of an identical "
+    "fresh machine driven through the same earlier calls and then step(j) (both are real runs through the public "
+    "API; the loop body of step() does not know n); the resulting records are read as the trace of the batched run",
+    "Rust serves one source per delivery and its RETI clears exactly that status bit (lib.rs/eval.rs): an event-raised "
+    "request that was only a co-candidate of that delivery and is still pending after the RETI keeps its 3-boundary "
+    "obligation; Python has no per-source bookkeeping (one delivery stands for all candidates): nothing re-registered",
 ]
 
 
@@ -236,6 +256,94 @@ def random_scenario(st: Stream) -> Tuple[Dict[str, Any], str]:
     return sc, skel
 
 
+def contention_scenario(st: Stream) -> Tuple[Dict[str, Any], str]:
+    """Several sources pending at the same time under a busy main loop (no HALT/OFF: the wake-up path re-evaluates
+    every request by itself): coinciding timer expiries, bursts of two host sources at the same or at adjacent
+    boundaries, a request that stays masked while another source is served and is unmasked by the program later,
+    firmware that raises a status bit itself.  After the burst the host stays silent, so that long step(n) calls
+    and long stretches without any new request exist."""
+    kind = st.choice(("timers", "timers", "burst", "burst", "unmask", "unmask", "unmask", "fwset"))
+    main: List[List[Any]] = []
+    for _ in range(3 + st.below(6)):
+        r = st.below(100)
+        main.append(["NOP"] if r < 70 else (["INCA"] if r < 85 else (["INCM", R.SCRATCH] if r < 93 else ["KIL"])))
+    handler: List[List[Any]] = []
+    for _ in range(st.below(3)):
+        r = st.below(100)
+        handler.append(["NOP"] if r < 40 else (["INCM", R.SCRATCH] if r < 70 else
+                                               (["ACK", 0xFF ^ (1 << st.below(4))] if r < 92 else ["ISR", 0])))
+    srcs = 0x03 if kind == "timers" else st.choice((0x03, 0x05, 0x06, 0x07, 0x09, 0x0A, 0x0B, 0x0C, 0x0D, 0x0E, 0x0F))
+    if kind == "timers" and st.chance(1, 3):
+        srcs |= st.choice((0x04, 0x08, 0x0C))
+    imr0 = 0x80 | srcs
+    mti = sti = 0
+    if srcs & 0x03 and (kind == "timers" or st.chance(2, 3)):
+        mti = st.choice((4, 5, 6, 7, 8, 9, 12))
+        if kind == "timers" or st.chance(1, 2):
+            sti = mti * st.choice((1, 1, 2, 3))
+        else:
+            sti = st.choice((0, 5, 7, 11, 50))
+    steps = 60
+    events: List[List[Any]] = []
+    if srcs & 0x0C and (kind != "timers" or st.chance(1, 2)):
+        k = st.below(14)
+        burst = [[k, "key_inject", st.choice(KEYS)], [k + st.below(3), "on_down", None]]
+        if st.chance(1, 4):
+            burst = burst[:1] if st.chance(1, 2) else burst[1:]
+        events += sorted(burst, key=lambda e: e[0])
+        if st.chance(1, 3) and any(e[1] == "on_down" for e in events):
+            events.append([k + 20 + st.below(30), "on_up", None])
+    if kind == "unmask":
+        # one source stays enabled, the others are masked for a stretch of every loop iteration and unmasked again
+        bits = [b for b in (1, 2, 4, 8) if srcs & b]
+        keep = st.choice(bits)
+        imr0 = 0x80 | keep if st.chance(2, 3) else imr0
+        a = st.below(len(main) + 1)
+        main.insert(a, ["IMR", 0x80 | keep])
+        b = a + 1 + st.below(len(main) - a)
+        main.insert(b, ["IMR", 0x80 | srcs] if st.chance(2, 3) else ["ORIMR", srcs])
+    elif kind == "fwset":
+        main.insert(st.below(len(main) + 1), ["ISR", st.choice([b for b in (1, 2, 4, 8, 3, 0x0C) if b & srcs] or [srcs])])
+    elif st.chance(1, 5):
+        # master enable switched off for a stretch of the loop
+        a = st.below(len(main) + 1)
+        main.insert(a, ["ANDIMR", 0x7F])
+        main.insert(a + 1 + st.below(len(main) - a), ["ORIMR", 0x80])
+    sc: Dict[str, Any] = {"prog": {"main": main, "handler": handler}, "imr0": imr0,
+                          "isr0": 0, "f0": st.byte(), "ba0": st.word(), "i0": 1 + st.below(20),
+                          "mti": mti, "sti": sti, "steps": steps, "events": events}
+    if st.chance(1, 2):
+        sc["bp0"] = st.choice(BASES)
+    if st.chance(1, 2):
+        sc["imfill"] = st.below(256)
+    return sc, "contend-" + kind
+
+
+def configure(sc: Dict[str, Any], st: Stream, always_batch: bool = False) -> Dict[str, Any]:
+    """Host-side configuration of a scenario, drawn from a stream of its own (scenario draws are unchanged):
+    "fast" (Python model only): PCE500Emulator.fast_mode, the documented 'minimal execution path' of step() that
+    run_pce500.py / cli.py switch on; "batch" (Rust model only): the host calls CoreRuntime::step(n) with n > 1."""
+    cfg: Dict[str, Any] = {}
+    if st.chance(1, 3):
+        cfg["fast"] = True
+    if always_batch or st.chance(1, 4):
+        cfg["batch"] = st.choice(BATCHES)
+    return cfg
+
+
+def variants(sc: Dict[str, Any], cfg: Dict[str, Any]) -> List[Tuple[str, Dict[str, Any], List[str]]]:
+    """(model, scenario as run on that model, extra labels): the single-stepped Rust run, the Python run (fast or
+    normal execution path) and, when configured, a batched Rust run."""
+    out: List[Tuple[str, Dict[str, Any], List[str]]] = [("rs", sc, [])]
+    if cfg.get("batch"):
+        out.append(("rs", dict(sc, batch=int(cfg["batch"])), [f"rs:batch-step({int(cfg['batch'])})"]))
+    if cfg.get("fast"):
+        out.append(("py", dict(sc, fast=True), ["py:fast-mode"]))
+    else:
+        out.append(("py", sc, []))
+    return out
+
+
 # ----------------------------------------------------------------------------------------------- evaluation
 def run_model(model: str, scs: List[Dict[str, Any]]) -> List[Dict[str, Any]]:
     if model == "py":
@@ -256,6 +364,10 @@ def summarize(sc: Dict[str, Any]) -> str:
     extra = "".join(f" {k}={sc[k]:02X}" for k in ("bp0", "px0", "py0") if sc.get(k))
     if sc.get("kbirq") is False:
         extra += " kbirq=off"
+    if sc.get("fast"):
+        extra += " fast_mode=on"
+    if sc.get("batch"):
+        extra += f" host-calls=step({sc['batch']})"
     return (f"main[{slots(sc['prog']['main'])}] handler[{slots(sc['prog']['handler'])}] imr0={sc['imr0']:02X} "
             f"isr0={sc['isr0']:02X} mti={sc['mti']} sti={sc['sti']} events={len(sc.get('events', []))}" + extra)
 
@@ -285,31 +397,41 @@ def _shard(task: Tuple[str, int, int, int, int, str]) -> Report:
     """task = (kind, shard, nshards, seed, param, tier)."""
     kind, shard, nshards, seed, param, tier = task
     rep = Report()
-    scs: List[Tuple[Dict[str, Any], List[str]]] = []
+    scs: List[Tuple[Dict[str, Any], Dict[str, Any], List[str]]] = []      # (scenario, configuration, labels)
     if kind == "enum":
         depth, full = param % 16, bool(param // 16)
         total = enum_count(depth, full)
         for idx in range(shard, total, nshards):
-            scs.append((enum_case(idx, depth, full), [f"gen:enum-depth{depth}"]))
+            # configuration is co-varied with the enumeration (a hash of the index), not crossed with it
+            scs.append((enum_case(idx, depth, full), configure({}, Stream(0xC12E, depth, int(full), idx)),
+                        [f"gen:enum-depth{depth}"]))
+    elif kind == "contend":
+        for j in range(param):
+            sc, skel = contention_scenario(Stream(seed, 0xC12D, shard, j))
+            scs.append((sc, configure(sc, Stream(seed, 0xC12F, shard, j), always_batch=True), ["gen:contention", f"skel:{skel}"]))
     else:
         count = param
         for j in range(count):
             st = Stream(seed, 0xC12, shard, j)
             sc, skel = random_scenario(st)
-            scs.append((sc, ["gen:random", f"skel:{skel}"]))
+            scs.append((sc, configure(sc, Stream(seed, 0xC12C, shard, j)), ["gen:random", f"skel:{skel}"]))
     B = 64
     for i in range(0, len(scs), B):
         chunk = scs[i:i + B]
-        rs_runs = run_model("rs", [c[0] for c in chunk])
-        for j, ((sc, labels), rr) in enumerate(zip(chunk, rs_runs)):
+        todo: List[Tuple[int, str, Dict[str, Any], List[str]]] = []
+        for j, (sc, cfg, labels) in enumerate(chunk):
+            for model, vsc, extra in variants(sc, cfg):
+                todo.append((j, model, vsc, labels + extra))
+        rs_idx = [n for n, t in enumerate(todo) if t[1] == "rs"]
+        rs_runs = dict(zip(rs_idx, run_model("rs", [todo[n][2] for n in rs_idx])))
+        for n, (j, model, vsc, labels) in enumerate(todo):
             # keep evidence samples varied: one scenario from each of the first enumeration shards (an early index
             # and one with several events) and the first scenario of the first random shards
             if kind == "enum":
                 sample = shard < 2 and (i + j) == (37, 111)[shard]
             else:
                 sample = shard < 2 and (i + j) == 0
-            account(rep, "rs", sc, rr, labels, sample)
-            account(rep, "py", sc, PY.run(sc), labels, sample)
+            account(rep, model, vsc, rs_runs[n] if model == "rs" else PY.run(vsc), labels, sample)
     return rep
 
 
@@ -327,6 +449,8 @@ def run(ctx: Ctx) -> Report:
         tasks += [("enum", i, nsh, ctx.seed, depth + 16 * int(full), ctx.tier) for i in range(nsh)]
     per = ctx.pick(50, 200)
     tasks += [("rand", i, nsh, ctx.seed, per, ctx.tier) for i in range(nsh)]
+    per_c = ctx.pick(20, 60)
+    tasks += [("contend", i, nsh, ctx.seed, per_c, ctx.tier) for i in range(nsh)]
     reports = ctx.pmap(_shard, tasks)
     rep = ctx.merge_reports(reports)
     rep.rule = RULE
@@ -338,6 +462,10 @@ def run(ctx: Ctx) -> Report:
                                            "scenarios_per_model": enum_count(d, f)} for d, f in enums],
                                 "complete": True}
     rep.extra["random_scenarios_per_model"] = per * nsh
+    rep.extra["contention_scenarios_per_model"] = per_c * nsh
+    rep.extra["configuration"] = {"python fast_mode": "1/3 of all scenarios", "rust batched step(n)": "an additional run "
+                                  "for 1/4 of the enumerated/random scenarios and for every contention scenario",
+                                  "batch sizes": sorted(set(BATCHES))}
     return rep
 
 
@@ -426,7 +554,7 @@ def shrink(ctx: Ctx, v: Violation) -> Violation:
                 c["sc"][field] = val
                 if attempt(c):
                     changed = True
-        for field in ("px0", "py0", "bp0", "imfill", "kbirq"):
+        for field in ("px0", "py0", "bp0", "imfill", "kbirq", "fast", "batch"):
             if field in best["sc"]:
                 c = clone()
                 del c["sc"][field]
